@@ -25,10 +25,13 @@ def texts_for(u, v):
         "PROGRAM S_%s\nVAR s : STRING := 'café €'; x : INT END_VAR\nEND_PROGRAM\n" % u,
         "PROGRAM E_%s\nVAR x : INT; END_VAR\n  (* é日本 *) x := undeclared_%s;\nEND_PROGRAM\n" % (u, u),
         "PROGRAM D_%s\nVAR c : T_%s := r_%s; i : F_%s; END_VAR\ni();\nEND_PROGRAM\n" % (u, v, v, v),
+        # both documents declare SharedName, at different lines / columns: one diagnostic with a label in each document
+        ("" if u == "a" else "(* é *)\n\n(* padding so that the two documents have different line structure *)\n   ") +
+        "TYPE SharedName : (s1_%s, s2_%s); END_TYPE\n" % (u, u),
     ]
 
 
-TEXT_NAMES = ["valid", "lexical", "syntax", "semantic", "depends"]
+TEXT_NAMES = ["valid", "lexical", "syntax", "semantic", "depends", "shared"]
 
 
 def diag_key(d):
@@ -40,7 +43,7 @@ class World:
     server coincide."""
 
     STYLES = {"plain": ("docs", "%s.st"), "space": ("my docs", "prog %s.st"), "nonascii": ("dökü", "café_%s.st"),
-              "mixed": ("Docs.v1", "A+%s (copy).ST")}
+              "mixed": ("Docs.v1", "A+%s (copy).ST"), "casetwin": ("twins", "unit.st")}
 
     def __init__(self, tmp, style="plain"):
         import urllib.parse
@@ -49,7 +52,7 @@ class World:
         dname, fpat = self.STYLES[style]
         self.root = os.path.join(tmp, dname)
         os.makedirs(self.root, exist_ok=True)
-        self.fname = {u: fpat % u for u in "ab"}
+        self.fname = {u: fpat % u for u in "ab"} if "%s" in fpat else {"a": fpat, "b": fpat.capitalize()}
         # the URI is the percent-encoded path, as editors send it
         self.uris = {u: "file://" + urllib.parse.quote(os.path.join(self.root, self.fname[u])) for u in "ab"}
         self.texts = {"a": texts_for("a", "b"), "b": texts_for("b", "a")}
@@ -173,6 +176,29 @@ def check_history(world, history, res, tag, versions="increasing"):
                 ok = False
             got = tuple(sorted(diag_key(d) for d in mine[0]["params"]["diagnostics"] if d.get("code") not in IGNORED_CODES))
             names = "+".join(sorted("%s=%s" % (k, classify(world, k, v)) for k, v in state.items()))
+            # ground truth that needs no reference: a diagnostic about SharedName starts where this document spells it
+            lines_u = text.split("\n")
+            for d_ in mine[0]["params"]["diagnostics"]:
+                st_ = d_["range"]["start"]
+                if st_["line"] >= len(lines_u) or st_["character"] > len(lines_u[st_["line"]]):
+                    res.violation("position-outside-document", "outside:" + names, {"diagnostic": diag_key(d_)}, case)
+                    ok = False
+                elif d_.get("code") in ("P0019", "P0020") and "SharedName" in text and \
+                        not lines_u[st_["line"]][st_["character"]:].startswith("SharedName"):
+                    res.violation("position-not-at-name", "shared-name:" + names,
+                                  {"diagnostic": diag_key(d_), "text_there": lines_u[st_["line"]][st_["character"]:][:20]}, case)
+                    ok = False
+            if sum(1 for v_ in state.values() if "SharedName" in v_) > 1:
+                # which of the two declarations is called the duplicate depends on the hash order of the project's files
+                # (recorded as C11-one-error-reported): only the ground truth above is demanded in such states
+                res.count("steps-shared-name-both")
+                # ... and that both documents are told: the diagnostic is drawn in both files by `check`
+                if "SharedName" in text and not any(d_.get("code") in ("P0019", "P0020") for d_ in mine[0]["params"]["diagnostics"]) \
+                        and all("SharedName" in v_ or classify(world, k_, v_) == "valid" for k_, v_ in state.items()):
+                    res.violation("differs-from-check", "shared-name-not-reported:" + names,
+                                  {"published": got}, case)
+                    ok = False
+                continue
             ref = world.reference(dict(state), u)
             if len(ref) > 1:
                 res.violation("history-dependent", "unstable-reference:" + names,
@@ -207,10 +233,10 @@ def classify(world, u, text):
 def shard(shard_i, nshards, payload):
     res = core.Result()
     tmp = core.worker_tmpdir("c11")
-    world = World(tmp, ["plain", "space", "nonascii", "mixed"][shard_i % 4])
+    world = World(tmp, ["plain", "space", "nonascii", "mixed", "casetwin"][shard_i % 5])
     policies = ["increasing", "per-document", "constant", "arbitrary"]
     try:
-        alphabet = [(op, u, t) for op in ("open", "change") for u in ("a", "b") for t in range(5)]
+        alphabet = [(op, u, t) for op in ("open", "change") for u in ("a", "b") for t in range(len(TEXT_NAMES))]
         seqs = []
         for n in range(1, payload["max_len"] + 1):
             if n < payload["max_len"]:
@@ -331,10 +357,10 @@ def run(tier, seed):
     parts += core.run_sharded(project_shard, payload)
     parts.append(witnesses().to_dict())
     res = core.Result.merge(parts)
-    total = 20 ** payload["max_len"]
+    total = (4 * len(TEXT_NAMES)) ** payload["max_len"]
     extra = {
-        "rule": "notification sequences over {didOpen, didChange} x 2 URIs x 5 texts (valid, lexical error, syntax "
-                "error, semantic error, depends-on-other-document): %s of the %d sequences of length %d (every prefix "
+        "rule": "notification sequences over {didOpen, didChange} x 2 URIs x 6 texts (valid, lexical error, syntax "
+                "error, semantic error, depends-on-other-document, declares-a-name-the-other-document-declares-too): %s of the %d sequences of length %d (every prefix "
                 "is checked as a step), one server process per sequence; plus random histories over generated documents; "
                 "each step compared with fresh-server references (3 runs each) and with `ironplcc check` on a directory "
                 "with the same contents; distinct = distinct sequences every step of which agreed" % (
